@@ -17,7 +17,11 @@ func (ex *Exec) uniq(name string) string {
 }
 
 func (ex *Exec) newSym(name string, w uint8, signed bool, lo, hi int64) *Term {
-	t := ex.tb.Sym(ex.uniq(name), w, signed, lo, hi)
+	un := ex.uniq(name)
+	if v, ok := ex.w.cfg.Params["val."+un]; ok {
+		return ex.tb.Const(w, uint64(v))
+	}
+	t := ex.tb.Sym(un, w, signed, lo, hi)
 	ex.symOrder = append(ex.symOrder, t)
 	return t
 }
@@ -135,6 +139,23 @@ func (ex *Exec) vrtCall(fn *ssa.Function, args []Value, pos token.Pos) Value {
 		return tb.Const(64, uint64(n))
 	case "Register":
 		return nil
+	case "Memo":
+		key := cstr(args[0])
+		if v, ok := ex.w.memo[key]; ok {
+			cp := make([]Value, len(v))
+			copy(cp, v)
+			return Slice{a: cp, o: ex.newObj("memo")}
+		}
+		r := ex.call(args[1], nil, pos).(Slice)
+		for _, e := range r.a {
+			if t, ok := e.(*Term); !ok || !t.IsConst() {
+				panic(stopf(StopUnsupported, "vrt.Memo result must be concrete bytes"))
+			}
+		}
+		cp := make([]Value, len(r.a))
+		copy(cp, r.a)
+		ex.w.memo[key] = cp
+		return r
 	}
 	if fn.Blocks != nil {
 		// composite helpers (Bytes, Ints, OutBytes) are interpreted
